@@ -21,6 +21,16 @@ class InjectedFault(Exception):
     """Raised by an observer at a chosen (step, phase)."""
 
 
+class SutMisbehaviour(Exception):
+    """The library did not build the model the scenario specifies through its public construction API (e.g. a task
+    handed to the workflow is not in its task_list afterwards).  Raised by the builder; a run cannot be judged on
+    a model that is not the specified one, and no property holds "for all models" if models are silently altered."""
+
+    def __init__(self, kind, msg):
+        Exception.__init__(self, msg)
+        self.kind = kind
+
+
 class InjectedAbort(BaseException):
     """Like InjectedFault, but outside the Exception hierarchy (as KeyboardInterrupt / SystemExit are)."""
 
